@@ -31,7 +31,7 @@ F = core.f2bits
 GEOMETRIC = ["RRT", "RRTConnect", "RRTstar", "InformedRRTstar", "SORRTstar", "RRTsharp", "RRTXstatic", "LazyRRT", "TRRT",
              "BiTRRT", "LBTRRT", "LazyLBTRRT", "RLRT", "BiRLRT", "EST", "BiEST", "ProjEST", "KPIECE1", "BKPIECE1",
              "LBKPIECE1", "PDST", "SBL", "STRIDE", "PRM", "PRMstar", "LazyPRM", "LazyPRMstar", "SPARS", "SPARStwo", "FMT",
-             "BFMT", "BITstar", "ABITstar", "AITstar", "EITstar", "EIRMstar", "SST", "AnytimePathShortening",
+             "BFMT", "BITstar", "ABITstar", "BITstarA", "ABITstarA", "AITstar", "EITstar", "EIRMstar", "SST", "AnytimePathShortening",
              "pRRT", "pSBL", "CForest"]
 CONTROL = ["cRRT", "cRRTi", "cSST", "cEST", "cKPIECE1", "cPDST"]
 MULTI = {"pRRT", "pSBL", "CForest", "AnytimePathShortening"}
@@ -40,7 +40,12 @@ PLANNERS = GEOMETRIC + CONTROL
 BOXES = [((0.30, 0.0), (0.36, 0.62)), ((0.30, 0.74), (0.36, 1.0)), ((0.55, 0.35), (0.75, 0.65))]
 # the same world with the goal of query A sealed in a pocket (walls + the space boundary): only approximate solutions
 BOXES_SEALED = BOXES + [((0.76, 0.76), (0.80, 1.0)), ((0.76, 0.76), (1.0, 0.80))]
-ENVS = {"open": BOXES, "sealed": BOXES_SEALED}
+# the two-block world of C04's environment 7 (validity resolution 0.01, path-length objective on the problem definition):
+# the configuration in which LazyLBTRRT with two goal states stops consulting its termination condition (F140)
+BOXES_BLOCKS = [((0.3, 0.0), (0.45, 0.35)), ((0.45, 0.45), (0.7, 0.7))]
+ENVS = {"open": BOXES, "sealed": BOXES_SEALED, "blocks": BOXES_BLOCKS}
+ENV_OPTS = {"blocks": " res=%s obj=len" % F(0.01)}
+RETURN_LIMIT_S = 20      # harness watchdog: wall seconds without return after ptc fired / without any ptc evaluation
 QA = ((0.1, 0.1), (0.9, 0.9))          # first query
 QB = ((0.13, 0.87), (0.91, 0.12))      # a different query (all four points distinctive)
 QSWAP = (QA[1], QA[0])
@@ -62,7 +67,7 @@ AFTER_MEASURED = {
 AFTER_DEFAULT = 8
 
 REPORT_LOCK = threading.Lock()     # worker threads: Check.report / build_harness are not thread-safe
-HIST_ENV = {"clearsol-sealed": "sealed"}
+HIST_ENV = {"clearsol-sealed": "sealed", "multigoal-blocks": "blocks"}
 CLEARSOL_KS = [0, 1, 2, 5]
 SEALED_K = 250
 ROADMAP = {"PRM", "PRMstar", "LazyPRM", "LazyPRMstar", "SPARS", "SPARStwo"}   # override setProblemDefinition (clearQuery)
@@ -84,7 +89,8 @@ def fib_upto(n):
 
 def header(planner, seed, trace=0, dim=2, env="open"):
     boxes = ENVS[env]
-    s = "proto planner=%s seed=%d dim=%d trace=%d boxes 2 %d" % (planner, seed, dim, trace, len(boxes))
+    s = "proto planner=%s seed=%d dim=%d trace=%d limit=%d%s boxes 2 %d" % (planner, seed, dim, trace, RETURN_LIMIT_S,
+                                                                          ENV_OPTS.get(env, ""), len(boxes))
     for lo, hi in boxes:
         s += " " + " ".join(F(x) for x in lo) + " " + " ".join(F(x) for x in hi)
     return s
@@ -111,6 +117,9 @@ def histories(tier):
         "solve": lambda k, K: [q("setpd", QA), "solve %d" % k],
         "resume": lambda k, K: [q("setpd", QA), "solve %d" % k, "getpd", "solve %d" % k, "solve %d" % K, "solve %d" % k],
         "clear": lambda k, K: [q("setpd", QA), "solve %d" % k, "getpd", "clear", "getpd", "solve %d" % k, "getpd"],
+        # interrupted solve, clear(), interrupted solve again - nothing in between (getPlannerData right after clear() is
+        # itself a crash for some planners and would hide what the solve after clear() does)
+        "clear-plain": lambda k, K: [q("setpd", QA), "solve %d" % k, "clear", "solve %d" % k, "solve %d" % K],
         "newpd-clear": lambda k, K: [q("setpd", QA), "solve %d" % K, q("setpd", QB), "clear", "solve %d" % k,
                                      "solve %d" % K],
         "clear-newpd": lambda k, K: [q("setpd", QA), "solve %d" % k, "clear", q("setpd", QB), "solve %d" % K, "getpd"],
@@ -129,6 +138,7 @@ def histories(tier):
         # into one goal vertex get inconsistent graphs here
         "multigoal": lambda k, K: [qg("setpdg", QA[0], [QA[1], (0.55, 0.2)]), "solve %d" % k, "solve %d" % k, "solve %d" % K,
                                    "getpd", "solve %d" % k, "clear", "solve %d" % k],
+        "multigoal-blocks": lambda k, K: [qg("setpdg", QA[0], [QA[1], (0.55, 0.2)]), "solve %d" % k, "solve %d" % K, "solve %d" % k],
         "swap": lambda k, K: [q("setpd", QA), "solve %d" % K, "clear", q("setsg", QSWAP), "solve %d" % k, "solve %d" % K],
         "invalid-start": lambda k, K: [q("setpd", QINV), "solve %d" % k, "addstart " + pt(QA[0]), "solve %d" % k,
                                        "solve %d" % K],
@@ -204,6 +214,7 @@ def contexts(ops):
 def history_flags(ops, ctx):
     dirty = any(c.endswith("/dirty") for c in ctx)
     return {"getpd": any(o.startswith("getpd") for o in ops), "dirty": dirty,
+            "multigoal": any(o.startswith("setpdg") for o in ops),
             "adds_start_later": dirty or any(o.startswith("addstart") for o in ops)}
 
 
@@ -229,6 +240,11 @@ def oracle(planner, ops, out, rc, err):
             fails.append((i, "no-return-after-fire", "solve did not return within %s s after ptc fired (%s)"
                           % (kv(o).get("limit_s", "?"), o[:120])))
             return fails
+        if o.startswith("solve STALLED"):
+            # watchdog: the planner went the whole wall limit without evaluating its termination condition at all
+            fails.append((i, "stalled-no-ptc-evaluation", "solve stopped evaluating its termination condition for %s s and did not "
+                          "return (%s)" % (kv(o).get("limit_s", "?"), o[:110])))
+            return fails
         if o.startswith("bad-op") or not o.startswith(op):
             fails.append((i, "protocol", "unexpected line %r" % o[:80]))
             continue
@@ -252,6 +268,9 @@ def oracle(planner, ops, out, rc, err):
         d = kv(o)
         st = d.get("st", "?")
         c = ctx[i]
+        if "added" not in d:
+            fails.append((i, "protocol", "solve line without counters: %r" % o[:100]))
+            continue
         added = int(d["added"])
         if st.startswith("EXC:"):
             fails.append((i, "exception", "solve threw %s" % st[4:160]))
@@ -353,7 +372,7 @@ def probe_first_solution(rn, planner, seed):
 
 
 def judge_run(ck, rn, planner, seed, hname, k, K, ops, stats):
-    env = HIST_ENV.get(hname, "sealed" if hname.startswith("corpus-sealed:") else "open")
+    env = HIST_ENV.get(hname, hname.split(":")[0][len("corpus-"):] if hname.startswith("corpus-") else "open")
     script, out, rc, err = rn.run(planner, seed, ops, env=env)
     if out is None:
         # a process timeout is reported as "never returns" only if a second run with a longer timeout agrees
@@ -392,7 +411,7 @@ def report_fail(ck, rn, res):
             c = res["ops"][i].split()[0]
         rec = {"engine": "proto", "planner": res["planner"], "clause": clause, "ctx": c, "history": res["history"]}
         rec.update(history_flags(res["ops"], res["ctx"]))
-        key = (res["planner"], clause, c, rec["getpd"], rec["dirty"], rec["adds_start_later"])
+        key = (res["planner"], clause, c, rec["getpd"], rec["dirty"], rec["adds_start_later"], rec["multigoal"])
         if key in seen:
             continue
         seen.add(key)
@@ -857,7 +876,7 @@ def run(ck):
             p, s = hd[0], hd[1]
             ops = [x.strip() for x in body.split(";") if x.strip()]
             ops = [expand_corpus_op(o) for o in ops]
-            jobs.append((p, int(s), ("corpus-sealed:" if hd[2:] == ["sealed"] else "corpus:") + name, None, None, ops))
+            jobs.append((p, int(s), ("corpus-%s:" % hd[2] if (len(hd) > 2 and hd[2] in ENVS) else "corpus:") + name, None, None, ops))
 
     # per planner: where does the first exact solution appear?
     seeds = {p: planner_seed(ck, p) for p in PLANNERS}
@@ -883,9 +902,9 @@ def run(ck):
         if quick:
             # every k with the basic histories, the longer ones on a rotating subset of k
             for j, k in enumerate(ks):
-                for hn in ("resume", "clear"):
+                for hn in ("resume", "clear", "clear-plain"):
                     jobs.append((p, seeds[p], hn, k, K, hs[hn](k, K)))
-                rest = [n for n in names if n not in ("resume", "clear", "solve")]
+                rest = [n for n in names if n not in ("resume", "clear", "clear-plain", "solve")]
                 for hn in (rest[j % len(rest)], rest[(j + 3) % len(rest)], rest[(j + 6) % len(rest)]):
                     jobs.append((p, seeds[p], hn, k, K, hs[hn](k, K)))
         else:
@@ -919,7 +938,7 @@ def run(ck):
     if ck.lean_ok:
         r = ck.rng.fork("lockstep")
         ljobs = []
-        lhs = {n: f for n, f in hs.items() if n not in ("mutpd", "mutpd-clear", "clearsol-sealed", "multigoal")}
+        lhs = {n: f for n, f in hs.items() if n not in ("mutpd", "mutpd-clear", "clearsol-sealed", "multigoal", "multigoal-blocks")}
         for planner in LOCKSTEP_CORE:
             lseeds = [seeds[planner], r.below(1000)] if quick else [seeds[planner]] + [r.below(1000) for _ in range(2)]
             for s in lseeds:
@@ -951,6 +970,8 @@ def expand_corpus_op(o):
     t = o.split()
     if t[0] in ("setpd", "setsg", "mutpd") and len(t) == 2 and t[1] in names:
         return q(t[0], names[t[1]])
+    if t[0] == "setpdg" and len(t) == 2 and t[1] == "QG2":
+        return qg("setpdg", QA[0], [QA[1], (0.55, 0.2)])
     if t[0] == "addstart" and len(t) == 2:
         return "addstart " + pt({"A": QA[0], "B": QB[0]}[t[1]])
     return o
